@@ -42,7 +42,10 @@ def describe(ev):
         extra = {k: c[k] for k in ("id", "n", "opt", "label", "base", "size", "type", "count", "rep", "mode", "al") if k in c}
         return f"Emit {c.get('k')} {json.dumps(extra)} r={ev.get('r')} ns={ev.get('ns')}"
     if ev.get("e") == "Finalize":
-        return "Finalize " + json.dumps({k: ev[k] for k in ("order", "finOk", "perr", "errD", "errB", "errDname", "rej", "dB", "dD", "dumpB", "dumpD") if k in ev})[:900]
+        return "Finalize " + json.dumps({k: ev[k] for k in ("order", "finOk", "perr", "errD", "errB", "errDname", "rej", "cmode", "lastIsPool", "lastLabel",
+                                                           "finalPools", "dB", "dD", "dumpB", "dumpD") if k in ev})[:1100]
+    if ev.get("e") in ("NewConst", "AddFunc", "EndFunc"):
+        return json.dumps({k: v for k, v in ev.items() if k not in ("ps",)})[:700]
     return json.dumps({k: v for k, v in ev.items() if k != "p"})[:500]
 
 
@@ -70,6 +73,12 @@ def program_of(records, upto):
             out.append(f"{e}({ev['n']},{ev['ref']})")
         elif e == "RemoveNodes":
             out.append(f"RemoveNodes({ev['f']},{ev['l']})")
+        elif e == "NewConst":
+            out.append(f"new_const({'local' if ev['scope'] == 0 else 'global'},{ev['size']}B)->[L{ev['label']}+{ev['off']}]")
+        elif e == "AddFunc":
+            out.append(f"add_func{ev.get('ns')}")
+        elif e == "EndFunc":
+            out.append(f"end_func(pool={ev.get('n')})")
         elif e in ("Serialize", "Finalize"):
             out.append(e)
     return " ".join(out)
@@ -89,6 +98,7 @@ def judge_trace(ctx, tag, path):
             suspects.append((e, cut))
             main.append(e[:cut])
     for e in execs:
+        last_p = None
         for ev in e:
             k = ev.get("e")
             if k == "Emit":
@@ -102,7 +112,18 @@ def judge_trace(ctx, tag, path):
                 pos = p.get("fwd", []).index(p["cur"]) if p.get("cur") in p.get("fwd", []) else -1
                 ctx.distinct.add((k, len(p.get("fwd", [])), pos))
             elif k == "Finalize":
-                ctx.distinct.add(("F", ev.get("finOk"), ev.get("rej"), min(ev.get("errD", 0), 1), len(ev.get("order", []))))
+                p = last_p or {}
+                pos = p.get("fwd", []).index(p["cur"]) if p.get("cur") in p.get("fwd", []) else -1
+                ctx.distinct.add(("F", ev.get("finOk"), ev.get("rej"), min(ev.get("errD", 0), 1), len(ev.get("order", [])), ev.get("cmode"),
+                                  len(ev.get("finalPools", [])), pos if ev.get("cmode") else None))
+            elif k == "NewConst":
+                ctx.distinct.add(("NC", ev.get("scope"), ev.get("size"), ev.get("off")))
+            elif k in ("AddFunc", "EndFunc"):
+                p = ev.get("p", {})
+                pos = p.get("fwd", []).index(p["cur"]) if p.get("cur") in p.get("fwd", []) else -1
+                ctx.distinct.add((k, len(p.get("fwd", [])), pos, ev.get("n", 0) != 0))
+            if "p" in ev:
+                last_p = ev["p"]
     mp = ctx.path(f"{tag}_main.ndjson")
     vlib.write_ndjson(mp, [r for e in main for r in e])
     rej = vlib.validate_executions(ctx, MOD_T, CFG_T, mp, tag=tag, timeout=2400, heap="8g", max_rejects=6)
@@ -185,6 +206,14 @@ def run(ctx):
         vlib.record_trace(ctx, bdir, "builder", ["random", tr2, nexec, steps], tr2, timeout=2400,
                           env={"VERIF_SEED": ctx.seed if nchunks == 1 else ctx.seed * 1000 + i})
         traces.append((tag, tr2))
+    # ---- 3b. Compiler programs: functions, local/global constant pools, cursor anywhere at end_func / finalize ----
+    nchunks, nexec, steps = (1, 500, 30) if q else (4, 1000, 40)
+    for i in range(nchunks):
+        tag = "cpool" if nchunks == 1 else f"cpool{i}"
+        tr3 = ctx.path(f"trace_{tag}.ndjson")
+        vlib.record_trace(ctx, bdir, "builder", ["cpool", tr3, nexec, steps], tr3, timeout=2400,
+                          env={"VERIF_SEED": ctx.seed if nchunks == 1 else ctx.seed * 1000 + 500 + i})
+        traces.append((tag, tr3))
     # ---- 4. validation ----
     nrec = 0
     for tag, path in traces:
@@ -197,7 +226,10 @@ def run(ctx):
         "errors are compared at program level: position of the first refused call and everything produced before it; error codes are not compared",
         "a call the Builder refuses when it is recorded ends the program; the direct run issues it after the recorded calls",
         "the node list is never emptied and the initial .text section node may be moved but finalize()/section() are only called on a non-empty list",
-        "Compiler is used with physical registers and without functions, so its passes do not rewrite nodes",
+        "Compiler is used with physical registers only; in the cpool programs functions are void(void), contain no control-flow instructions and no code is "
+        "placed between an exit label and its end sentinel; the direct run emits emit_prolog/emit_epilog with the frame the real FuncNode ended up with",
+        "constant pools: the direct run issues embed_const_pool(label, pool) at the pool node's place of the abstract list (local, next to the end sentinel) and "
+        "after the last node (global), pools rebuilt with the same add order; a function is never the very first node of the list",
         "ASan/UBSan build is the environment; an abort truncates the trace and the ABORT line is rejected",
         "empty inline comments are not generated (the node stores no comment for an empty string)"]
     vlib.write_evidence(ctx, "model_checking",
